@@ -82,7 +82,9 @@ def http_lines(da, rng: random.Random, tier_: str) -> list[dict[str, Any]]:
               # event timescales that do not divide the 90 kHz SCTE-35 clock (kept small: PTS products must fit TLC's integers)
               dict(start=3, interval=28, count=0, duration=5, ts=7, version=0),
               dict(start=64, interval=256, count=6, duration=100, ts=64, version=1),
-              dict(start=50, interval=404, count=0, duration=33, ts=101, version=0)]
+              dict(start=50, interval=404, count=0, duration=33, ts=101, version=0),
+              # an explicit zero where the option's default is not zero
+              dict(start=0, interval=400, count=4, duration=0, ts=100, version=0)]
     if tier_ == 'thorough':
         for _ in range(30):
             scheds.append(dict(start=rng.randrange(0, 3000), interval=rng.choice([1, 50, 99, 400, 401, 1000, 4000, 9999]),
